@@ -277,7 +277,8 @@ def parse_assumptions(log, names):
         elif l.startswith("Axioms:"):
             ax = []
             i += 1
-            while i < len(lines) and (lines[i].startswith(" ") or re.match(r"^[\w.']+\s*:", lines[i])):
+            while i < len(lines) and not lines[i].startswith("Axioms:") and not lines[i].startswith("Closed under") and \
+                    (lines[i].startswith(" ") or re.match(r"^[\w.']+\s*:", lines[i])):
                 m = re.match(r"^([\w.']+)\s*:", lines[i])
                 if m:
                     ax.append(m.group(1))
